@@ -306,8 +306,11 @@ struct Runner {
             std::istringstream is(line); std::string tool, kind, loc, in, fn; is >> tool >> kind >> loc >> in >> fn;
             // prefer the innermost stack frame that lies in the code under test (.../src/...c)
             std::string frame_fn; { std::istringstream es(err); std::string l;
-                while (std::getline(es, l)) { size_t h = l.find("    #"); if (h == std::string::npos) continue; size_t in = l.find(" in ", h); if (in == std::string::npos) continue;
-                    std::string rest = l.substr(in + 4); size_t sp = rest.find(' '); if (sp == std::string::npos) continue; std::string path = rest.substr(sp + 1);
+                while (std::getline(es, l)) { size_t h = l.find("    #"); if (h == std::string::npos) continue; size_t in = l.find(" in ", h);
+                    std::string rest;
+                    if (in != std::string::npos) rest = l.substr(in + 4);                                   // ASan/UBSan: "#0 0xaddr in func path:line"
+                    else { size_t sp0 = l.find(' ', h + 5); if (sp0 == std::string::npos) continue; rest = l.substr(sp0 + 1); }   // TSan: "#0 func path:line (mod+off)"
+                    size_t sp = rest.find(' '); if (sp == std::string::npos) continue; std::string path = rest.substr(sp + 1);
                     if (path.find("/src/") != std::string::npos && path.find("/verif/") == std::string::npos) { frame_fn = rest.substr(0, sp); break; } } }
             if (!frame_fn.empty()) fn = frame_fn;
             sig = "san:" + kind + ":" + (fn.empty() ? loc : fn);
